@@ -1,6 +1,1288 @@
-//! C15 — not built yet.
+//! C15 — resolver response cache: entries expire on time, TTLs only count down.
+//!
+//! Drives the real `hickory_resolver::ResponseCache::{new, insert, get}` with explicit `Instant`s
+//! (`base + offset`, the base lying in the future so that moka's own real-time expiry, which is
+//! derived from the same `valid_until`, can never fire during a run) over stateful blocks
+//!
+//!   begin [d:<b>] [<type>:<b>]…   b = posMin,posMax,negMin,negMax in ns (`-` = unset)
+//!   ins <q> <t> pos <answers> <authorities> <additionals>     records `type:ttl:pid,…` or `-`
+//!   ins <q> <t> neg <rcode> <nttl|-> <soa|-> <auth|-|e> <ns|-|e>
+//!   ins <q> <t> err <kind>
+//!   get <q> <t>
+//!   end <digest>
+//!
+//! and, because `ResponseCache::clear` / `clear_query` are `pub(crate)`, the public route to them,
+//! `CachingClient::{new, lookup, clear_cache, clear_cache_query}` over a scripted `DnsHandle`
+//! (default `TtlConfig`, real clock, TTLs of hours so that real time does not matter):
+//!
+//!   begin cc
+//!   cclookup <q> <result>    → `miss` (upstream asked, result cached) / `hit` (served from cache)
+//!   clear | clearq <q>
+//!   end <digest>
+//!
+//! Outside blocks:
+//!
+//!   fromresp <rcode> <tc> <ans> <match> <soa_ttl|-> <soa_minimum>   a real response message →
+//!                     `DnsError::from_response`: `ok` / `neg <negative_ttl>` (cacheable) / `err <rcode>`
+//!   realtime <lifetime_ms>                      implementation only (`~`): real clock, moka's own expiry
+//!                                               included — after sleeping past the lifetime nothing is served
+//!
+//! The oracle (independent of the Lean model) recomputes the clauses of the property from the
+//! history: never served after `t_ins + L`, every TTL = clamped stored TTL ⊖ whole seconds elapsed,
+//! TTLs non-increasing between refreshes, negative answers bounded, transient errors never cached,
+//! no panic.
+use std::collections::HashMap;
+use std::net::{Ipv4Addr, Ipv6Addr};
+use std::sync::atomic::{AtomicUsize, Ordering as AtomicOrdering};
+use std::sync::{Arc, Mutex};
+use std::time::{Duration, Instant};
+
+use futures_util::stream::{once, Stream};
+use hickory_net::runtime::TokioRuntimeProvider;
+use hickory_net::xfer::DnsHandle;
+use hickory_net::{DnsError, ForwardNSData, NetError, NoRecords};
+use hickory_proto::op::{DnsRequest, DnsRequestOptions, DnsResponse, Message, OpCode, Query, ResponseCode};
+use hickory_proto::rr::rdata::{A, AAAA, CNAME, MX, NS, NULL, SOA, TXT};
+use hickory_proto::rr::{Name, RData, Record, RecordType};
+use hickory_proto::ProtoError;
+use hickory_resolver::caching_client::CachingClient;
+use hickory_resolver::config::ResolverOpts;
+use hickory_resolver::{ResponseCache, TtlBounds, TtlConfig};
+
 use crate::common::*;
 
-pub fn run(_o: &Opts, rec: &mut Recorder) {
-    rec.rule = "stub".into();
+const NS_PER_S: u128 = 1_000_000_000;
+const MAX_TTL: u32 = 86_400;
+const T_A: u16 = 1;
+const T_NS: u16 = 2;
+const T_CNAME: u16 = 5;
+const T_SOA: u16 = 6;
+const T_MX: u16 = 15;
+const T_TXT: u16 = 16;
+const T_AAAA: u16 = 28;
+const T_ANY: u16 = 255;
+
+// ------------------------------------------------------------------ abstract values (= the model's)
+
+#[derive(Clone, Debug, PartialEq, Eq)]
+struct ARec {
+    ty: u16,
+    ttl: u32,
+    pid: u32,
+}
+
+#[derive(Clone, Debug, PartialEq, Eq)]
+struct ANs {
+    ns: ARec,
+    glue: Vec<ARec>,
+}
+
+#[derive(Clone, Debug, PartialEq, Eq)]
+enum ARes {
+    Pos { an: Vec<ARec>, au: Vec<ARec>, ad: Vec<ARec> },
+    Neg { rcode: u16, nttl: Option<u32>, soa: Option<ARec>, auth: Option<Vec<ARec>>, ns: Option<Vec<ANs>> },
+    Err(u32),
+}
+
+#[derive(Clone, Copy, Debug, PartialEq, Eq, Hash)]
+struct AQuery {
+    id: u32,
+    upper: bool,
+    ty: u16,
+}
+
+impl AQuery {
+    fn key(&self) -> (u32, u16) {
+        (self.id, self.ty)
+    }
+}
+
+fn show_rec(r: &ARec) -> String {
+    format!("{}:{}:{}", r.ty, r.ttl, r.pid)
+}
+fn show_recs_sep(l: &[ARec], sep: &str) -> String {
+    if l.is_empty() { "-".into() } else { l.iter().map(show_rec).collect::<Vec<_>>().join(sep) }
+}
+fn show_recs(l: &[ARec]) -> String {
+    show_recs_sep(l, ",")
+}
+fn show_opt_recs(l: &Option<Vec<ARec>>) -> String {
+    match l {
+        None => "-".into(),
+        Some(v) if v.is_empty() => "e".into(),
+        Some(v) => show_recs(v),
+    }
+}
+fn show_ns(d: &ANs) -> String {
+    format!("{}/{}", show_rec(&d.ns), if d.glue.is_empty() { String::new() } else { show_recs_sep(&d.glue, "+") })
+}
+fn show_opt_ns(l: &Option<Vec<ANs>>) -> String {
+    match l {
+        None => "-".into(),
+        Some(v) if v.is_empty() => "e".into(),
+        Some(v) => v.iter().map(show_ns).collect::<Vec<_>>().join(";"),
+    }
+}
+fn show_opt<T: ToString>(o: &Option<T>) -> String {
+    o.as_ref().map(|x| x.to_string()).unwrap_or_else(|| "-".into())
+}
+fn show_res(r: &ARes) -> String {
+    match r {
+        ARes::Pos { an, au, ad } => format!("pos {} {} {}", show_recs(an), show_recs(au), show_recs(ad)),
+        ARes::Neg { rcode, nttl, soa, auth, ns } => format!(
+            "neg {} {} {} {} {}",
+            rcode,
+            show_opt(nttl),
+            soa.as_ref().map(show_rec).unwrap_or_else(|| "-".into()),
+            show_opt_recs(auth),
+            show_opt_ns(ns)
+        ),
+        ARes::Err(k) => format!("err {k}"),
+    }
+}
+fn show_query(q: &AQuery) -> String {
+    format!("{}{}/{}", q.id, if q.upper { "u" } else { "" }, q.ty)
+}
+
+fn parse_rec(s: &str) -> Option<ARec> {
+    let p: Vec<&str> = s.split(':').collect();
+    if p.len() != 3 {
+        return None;
+    }
+    Some(ARec { ty: p[0].parse().ok()?, ttl: p[1].parse().ok()?, pid: p[2].parse().ok()? })
+}
+fn parse_recs_sep(s: &str, sep: char) -> Option<Vec<ARec>> {
+    if s == "-" || s.is_empty() {
+        return Some(vec![]);
+    }
+    s.split(sep).map(parse_rec).collect()
+}
+fn parse_recs(s: &str) -> Option<Vec<ARec>> {
+    parse_recs_sep(s, ',')
+}
+fn parse_opt_recs(s: &str) -> Option<Option<Vec<ARec>>> {
+    match s {
+        "-" => Some(None),
+        "e" => Some(Some(vec![])),
+        _ => parse_recs(s).map(Some),
+    }
+}
+fn parse_opt_ns(s: &str) -> Option<Option<Vec<ANs>>> {
+    match s {
+        "-" => Some(None),
+        "e" => Some(Some(vec![])),
+        _ => s
+            .split(';')
+            .map(|e| {
+                let (r, g) = e.split_once('/')?;
+                Some(ANs { ns: parse_rec(r)?, glue: parse_recs_sep(g, '+')? })
+            })
+            .collect::<Option<Vec<_>>>()
+            .map(Some),
+    }
+}
+fn parse_res(t: &[&str]) -> Option<ARes> {
+    match t {
+        ["pos", an, au, ad] => Some(ARes::Pos { an: parse_recs(an)?, au: parse_recs(au)?, ad: parse_recs(ad)? }),
+        ["neg", rc, nt, soa, auth, ns] => Some(ARes::Neg {
+            rcode: rc.parse().ok()?,
+            nttl: if *nt == "-" { None } else { Some(nt.parse().ok()?) },
+            soa: if *soa == "-" { None } else { Some(parse_rec(soa)?) },
+            auth: parse_opt_recs(auth)?,
+            ns: parse_opt_ns(ns)?,
+        }),
+        ["err", k] => Some(ARes::Err(k.parse().ok()?)),
+        _ => None,
+    }
+}
+fn parse_query(s: &str) -> Option<AQuery> {
+    let (i, ty) = s.split_once('/')?;
+    let (i, upper) = match i.strip_suffix('u') {
+        Some(x) => (x, true),
+        None => (i, false),
+    };
+    Some(AQuery { id: i.parse().ok()?, upper, ty: ty.parse().ok()? })
+}
+
+// ------------------------------------------------------------------ abstract → real → abstract
+
+fn name(prefix: &str, n: u32) -> Name {
+    Name::from_ascii(format!("{prefix}{n}.example.")).unwrap()
+}
+
+fn mk_rdata(ty: u16, pid: u32) -> RData {
+    match ty {
+        T_A => RData::A(A(Ipv4Addr::new(10, (pid >> 16) as u8, (pid >> 8) as u8, pid as u8))),
+        T_AAAA => RData::AAAA(AAAA(Ipv6Addr::new(0x2001, 0xdb8, 0, 0, 0, 0, (pid >> 16) as u16, pid as u16))),
+        T_CNAME => RData::CNAME(CNAME(name("t", pid))),
+        T_NS => RData::NS(NS(name("ns", pid))),
+        T_MX => RData::MX(MX::new(10, name("mx", pid))),
+        T_TXT => RData::TXT(TXT::new(vec![format!("p{pid}")])),
+        T_SOA => RData::SOA(mk_soa(pid)),
+        _ => RData::Unknown { code: RecordType::from(ty), rdata: NULL::with(pid.to_be_bytes().to_vec()) },
+    }
+}
+fn mk_soa(pid: u32) -> SOA {
+    SOA::new(name("m", pid), name("h", pid), pid, 7200, 600, 360_000, 60)
+}
+fn mk_rec(r: &ARec) -> Record {
+    Record::from_rdata(name("r", r.pid), r.ttl, mk_rdata(r.ty, r.pid))
+}
+fn pid_of(n: &Name) -> Option<u32> {
+    let l = n.iter().next()?;
+    std::str::from_utf8(l).ok()?.strip_prefix('r')?.parse().ok()
+}
+/// abstraction of a real record; `None` if its identity (owner, data) is not what `mk_rec` builds
+fn abs_rec(r: &Record) -> Option<ARec> {
+    let pid = pid_of(&r.name)?;
+    let ty = u16::from(r.record_type());
+    if r.data != mk_rdata(ty, pid) || r.name != name("r", pid) {
+        return None;
+    }
+    Some(ARec { ty, ttl: r.ttl, pid })
+}
+fn abs_recs<'a>(rs: impl IntoIterator<Item = &'a Record>) -> Option<Vec<ARec>> {
+    rs.into_iter().map(abs_rec).collect()
+}
+
+fn mk_query(q: &AQuery) -> Query {
+    let n = if q.upper { format!("Q{}.EXAMPLE.", q.id) } else { format!("q{}.example.", q.id) };
+    Query::new(Name::from_ascii(n).unwrap(), RecordType::from(q.ty))
+}
+
+fn mk_message(an: &[ARec], au: &[ARec], ad: &[ARec], q: &AQuery) -> Message {
+    let mut m = Message::response(0x1234, OpCode::Query);
+    m.add_query(mk_query(q));
+    m.answers.extend(an.iter().map(mk_rec));
+    m.authorities.extend(au.iter().map(mk_rec));
+    m.additionals.extend(ad.iter().map(mk_rec));
+    m
+}
+
+fn mk_err(k: u32) -> NetError {
+    match k % 10 {
+        0 => NetError::Timeout,
+        1 => NetError::Busy,
+        2 => NetError::NoConnections,
+        3 => NetError::from(std::io::Error::new(std::io::ErrorKind::ConnectionReset, "verif")),
+        4 => NetError::Message("verif"),
+        5 => NetError::Msg("verif".into()),
+        6 => NetError::Dns(DnsError::ResponseCode(ResponseCode::ServFail)),
+        7 => NetError::Dns(DnsError::ResponseCode(ResponseCode::Refused)),
+        8 => NetError::Proto(ProtoError::from("verif")),
+        _ => NetError::Dns(DnsError::ResponseCode(ResponseCode::NXDomain)),
+    }
+}
+
+fn mk_result(r: &ARes, q: &AQuery) -> Option<Result<Message, NetError>> {
+    Some(match r {
+        ARes::Pos { an, au, ad } => Ok(mk_message(an, au, ad, q)),
+        ARes::Neg { rcode, nttl, soa, auth, ns } => {
+            let mut n = NoRecords::new(mk_query(q), <ResponseCode as From<u16>>::from(*rcode));
+            n.negative_ttl = *nttl;
+            if let Some(s) = soa {
+                if s.ty != T_SOA {
+                    return None;
+                }
+                n.soa = Some(Box::new(Record::from_rdata(name("r", s.pid), s.ttl, mk_soa(s.pid))));
+            }
+            n.authorities = auth.as_ref().map(|v| v.iter().map(mk_rec).collect::<Vec<_>>().into());
+            n.ns = ns.as_ref().map(|v| {
+                v.iter()
+                    .map(|d| ForwardNSData { ns: mk_rec(&d.ns), glue: d.glue.iter().map(mk_rec).collect::<Vec<_>>().into() })
+                    .collect::<Vec<_>>()
+                    .into()
+            });
+            Err(NetError::Dns(DnsError::NoRecordsFound(n)))
+        }
+        ARes::Err(k) => Err(mk_err(*k)),
+    })
+}
+
+/// abstraction of what `get` returned; `Err(why)` when it is not the image of any abstract value
+fn abs_result(r: &Result<Message, NetError>) -> Result<ARes, String> {
+    match r {
+        Ok(m) => Ok(ARes::Pos {
+            an: abs_recs(&m.answers).ok_or("answer record altered")?,
+            au: abs_recs(&m.authorities).ok_or("authority record altered")?,
+            ad: abs_recs(&m.additionals).ok_or("additional record altered")?,
+        }),
+        Err(NetError::Dns(DnsError::NoRecordsFound(n))) => Ok(ARes::Neg {
+            rcode: u16::from(n.response_code),
+            nttl: n.negative_ttl,
+            soa: match &n.soa {
+                None => None,
+                Some(s) => {
+                    let pid = pid_of(&s.name).ok_or("soa altered")?;
+                    if s.data != mk_soa(pid) {
+                        return Err("soa data altered".into());
+                    }
+                    Some(ARec { ty: T_SOA, ttl: s.ttl, pid })
+                }
+            },
+            auth: match &n.authorities {
+                None => None,
+                Some(v) => Some(abs_recs(v.iter()).ok_or("NoRecords authority altered")?),
+            },
+            ns: match &n.ns {
+                None => None,
+                Some(v) => Some(
+                    v.iter()
+                        .map(|d| Some(ANs { ns: abs_rec(&d.ns)?, glue: abs_recs(d.glue.iter())? }))
+                        .collect::<Option<Vec<_>>>()
+                        .ok_or("NoRecords ns altered")?,
+                ),
+            },
+        }),
+        Err(e) => Err(format!("cache returned a non-cacheable error: {e}")),
+    }
+}
+
+// ------------------------------------------------------------------ configuration
+
+#[derive(Clone, Copy, Debug, Default, PartialEq, Eq)]
+struct B {
+    pmin: Option<u128>,
+    pmax: Option<u128>,
+    nmin: Option<u128>,
+    nmax: Option<u128>,
+}
+
+#[derive(Clone, Debug, Default)]
+struct Cfg {
+    default: B,
+    /// in call order of `with_query_type_ttl_bounds`; a later call for the same type wins
+    by: Vec<(u16, B)>,
+}
+
+fn show_b(b: &B) -> String {
+    format!("{},{},{},{}", show_opt(&b.pmin), show_opt(&b.pmax), show_opt(&b.nmin), show_opt(&b.nmax))
+}
+fn show_cfg(c: &Cfg) -> String {
+    let mut v = vec![];
+    if c.default != B::default() {
+        v.push(format!("d:{}", show_b(&c.default)));
+    }
+    for (ty, b) in &c.by {
+        v.push(format!("{}:{}", ty, show_b(b)));
+    }
+    v.join(" ")
+}
+fn parse_b(s: &str) -> Option<B> {
+    let p: Vec<&str> = s.split(',').collect();
+    if p.len() != 4 {
+        return None;
+    }
+    let f = |x: &str| -> Option<Option<u128>> { if x == "-" { Some(None) } else { Some(Some(x.parse().ok()?)) } };
+    Some(B { pmin: f(p[0])?, pmax: f(p[1])?, nmin: f(p[2])?, nmax: f(p[3])? })
+}
+fn parse_cfg(toks: &[&str]) -> Option<Cfg> {
+    let mut c = Cfg::default();
+    for t in toks {
+        let (k, b) = t.split_once(':')?;
+        let b = parse_b(b)?;
+        if k == "d" { c.default = b } else { c.by.push((k.parse().ok()?, b)) }
+    }
+    Some(c)
+}
+fn dur(ns: u128) -> Option<Duration> {
+    let s = u64::try_from(ns / NS_PER_S).ok()?;
+    Some(Duration::new(s, (ns % NS_PER_S) as u32))
+}
+fn opt_dur(x: Option<u128>) -> Option<Option<Duration>> {
+    match x {
+        None => Some(None),
+        Some(ns) => Some(Some(dur(ns)?)),
+    }
+}
+
+/// Builds the real `TtlConfig` through the public API only: global bounds through
+/// `ResolverOpts` + `TtlConfig::from_opts`, per-type bounds through serde (`TtlBounds` has private
+/// fields; whole seconds only) + `with_query_type_ttl_bounds`.
+fn build_cfg(c: &Cfg) -> Option<TtlConfig> {
+    let mut opts = ResolverOpts::default();
+    opts.positive_min_ttl = opt_dur(c.default.pmin)?;
+    opts.positive_max_ttl = opt_dur(c.default.pmax)?;
+    opts.negative_min_ttl = opt_dur(c.default.nmin)?;
+    opts.negative_max_ttl = opt_dur(c.default.nmax)?;
+    let mut cfg = TtlConfig::from_opts(&opts);
+    for (ty, b) in &c.by {
+        let mut fields = vec![];
+        for (k, v) in [("positive_min_ttl", b.pmin), ("positive_max_ttl", b.pmax), ("negative_min_ttl", b.nmin), ("negative_max_ttl", b.nmax)] {
+            if let Some(ns) = v {
+                if ns % NS_PER_S != 0 {
+                    return None;
+                }
+                fields.push(format!("\"{k}\": {}", u64::try_from(ns / NS_PER_S).ok()?));
+            }
+        }
+        let tb: TtlBounds = serde_json::from_str(&format!("{{{}}}", fields.join(", "))).ok()?;
+        cfg.with_query_type_ttl_bounds(RecordType::from(*ty), tb);
+    }
+    Some(cfg)
+}
+
+impl Cfg {
+    fn bounds_for(&self, ty: u16) -> &B {
+        self.by.iter().rev().find(|(k, _)| *k == ty).map(|(_, b)| b).unwrap_or(&self.default)
+    }
+    fn pos(&self, ty: u16) -> (u128, u128) {
+        let b = self.bounds_for(ty);
+        (b.pmin.unwrap_or(0), b.pmax.unwrap_or(MAX_TTL as u128 * NS_PER_S))
+    }
+    fn neg(&self, ty: u16) -> (u128, u128) {
+        let b = self.bounds_for(ty);
+        (b.nmin.unwrap_or(0), b.nmax.unwrap_or(MAX_TTL as u128 * NS_PER_S))
+    }
+    fn all_bounds(&self) -> impl Iterator<Item = &B> {
+        std::iter::once(&self.default).chain(self.by.iter().map(|(_, b)| b))
+    }
+    /// class `C15.bounds-min-gt-max`
+    fn min_gt_max(&self) -> bool {
+        self.all_bounds().any(|b| {
+            b.pmin.unwrap_or(0) > b.pmax.unwrap_or(MAX_TTL as u128 * NS_PER_S)
+                || b.nmin.unwrap_or(0) > b.nmax.unwrap_or(MAX_TTL as u128 * NS_PER_S)
+        })
+    }
+    /// some configured bound is ≥ 2^32 s (statistics only: since hickory-dns 617ee15 such
+    /// configurations are judged like any other)
+    fn over_u32(&self) -> bool {
+        let lim = (1u128 << 32) * NS_PER_S;
+        self.all_bounds().any(|b| [b.pmin, b.pmax, b.nmin, b.nmax].iter().any(|x| x.is_some_and(|v| v >= lim)))
+    }
+    fn class(&self) -> &'static str {
+        if self.min_gt_max() {
+            "C15.bounds-min-gt-max"
+        } else {
+            ""
+        }
+    }
+}
+
+// ------------------------------------------------------------------ the property, computed from the history
+
+fn clamp_u128(x: u128, lo: u128, hi: u128) -> u128 {
+    // only used with lo <= hi (other configurations are classified, not judged)
+    x.max(lo).min(hi.max(lo))
+}
+fn sat_u32(x: u128) -> u32 {
+    u32::try_from(x).unwrap_or(u32::MAX)
+}
+/// "per-type clamped stored TTL": the TTL clamped to the positive bounds (whole seconds) of the
+/// record's own type
+fn stored_ttl(c: &Cfg, r: &ARec) -> u32 {
+    let (lo, hi) = c.pos(r.ty);
+    let (lo, hi) = (sat_u32(lo / NS_PER_S), sat_u32(hi / NS_PER_S));
+    r.ttl.max(lo).min(hi.max(lo))
+}
+fn stored(c: &Cfg, r: &ARes) -> ARes {
+    match r {
+        ARes::Pos { an, au, ad } => {
+            let f = |v: &Vec<ARec>| v.iter().map(|r| ARec { ttl: stored_ttl(c, r), ..r.clone() }).collect::<Vec<_>>();
+            ARes::Pos { an: f(an), au: f(au), ad: f(ad) }
+        }
+        other => other.clone(),
+    }
+}
+/// `L` in ns
+fn lifetime(c: &Cfg, qt: u16, r: &ARes) -> u128 {
+    match r {
+        ARes::Pos { an, au, ad } => {
+            let (lo, hi) = c.pos(qt);
+            let m = an
+                .iter()
+                .chain(au)
+                .chain(ad)
+                .filter(|r| r.ty == qt || r.ty == T_CNAME)
+                .map(|r| stored_ttl(c, r) as u128 * NS_PER_S)
+                .min();
+            clamp_u128(m.unwrap_or(lo), lo, hi)
+        }
+        ARes::Neg { nttl, .. } => {
+            let (lo, hi) = c.neg(qt);
+            match nttl {
+                Some(t) => clamp_u128(*t as u128 * NS_PER_S, lo, hi),
+                None => lo,
+            }
+        }
+        ARes::Err(_) => 0,
+    }
+}
+fn ttls(r: &ARes) -> Vec<u32> {
+    match r {
+        ARes::Pos { an, au, ad } => an.iter().chain(au).chain(ad).map(|r| r.ttl).collect(),
+        ARes::Neg { nttl, soa, auth, ns, .. } => {
+            let mut v: Vec<u32> = nttl.iter().copied().collect();
+            v.extend(soa.iter().map(|r| r.ttl));
+            v.extend(auth.iter().flatten().map(|r| r.ttl));
+            for d in ns.iter().flatten() {
+                v.push(d.ns.ttl);
+                v.extend(d.glue.iter().map(|r| r.ttl));
+            }
+            v
+        }
+        ARes::Err(_) => vec![],
+    }
+}
+fn with_ttls(r: &ARes, f: impl Fn(u32) -> u32 + Copy) -> ARes {
+    let fr = |r: &ARec| ARec { ttl: f(r.ttl), ..r.clone() };
+    let fv = |v: &Vec<ARec>| v.iter().map(fr).collect::<Vec<_>>();
+    match r {
+        ARes::Pos { an, au, ad } => ARes::Pos { an: fv(an), au: fv(au), ad: fv(ad) },
+        ARes::Neg { rcode, nttl, soa, auth, ns } => ARes::Neg {
+            rcode: *rcode,
+            nttl: nttl.map(f),
+            soa: soa.as_ref().map(fr),
+            auth: auth.as_ref().map(fv),
+            ns: ns.as_ref().map(|v| v.iter().map(|d| ANs { ns: fr(&d.ns), glue: fv(&d.glue) }).collect()),
+        },
+        ARes::Err(k) => ARes::Err(*k),
+    }
+}
+
+struct Shadow {
+    res: ARes,
+    t: u128,
+    /// instant and TTL vector of the last answer served since this insert
+    last: Option<(u128, Vec<u32>)>,
+}
+
+struct Direct {
+    cache: ResponseCache,
+    base: Instant,
+    cfg: Cfg,
+    shadow: HashMap<(u32, u16), Shadow>,
+}
+
+// ------------------------------------------------------------------ caching-client route (clear)
+
+#[derive(Clone)]
+struct Scripted {
+    next: Arc<Mutex<Option<Result<Message, NetError>>>>,
+    calls: Arc<AtomicUsize>,
+}
+
+impl DnsHandle for Scripted {
+    type Response = std::pin::Pin<Box<dyn Stream<Item = Result<DnsResponse, NetError>> + Send>>;
+    type Runtime = TokioRuntimeProvider;
+
+    fn send(&self, _request: DnsRequest) -> Self::Response {
+        self.calls.fetch_add(1, AtomicOrdering::SeqCst);
+        let r = self.next.lock().unwrap().take().unwrap_or(Err(NetError::Message("no scripted answer")));
+        let r = r.and_then(|m| DnsResponse::from_message(m).map_err(NetError::from));
+        Box::pin(once(async move { r }))
+    }
+}
+
+struct Cc {
+    client: CachingClient<Scripted>,
+    handle: Scripted,
+    rt: tokio::runtime::Runtime,
+    cached: HashMap<(u32, u16), ()>,
+}
+
+enum Blk {
+    None,
+    Direct(Box<Direct>),
+    Cc(Box<Cc>),
+    /// the `begin` line could not be honoured (unparsable / not expressible through the public API)
+    Skipped,
+}
+
+pub struct Ctx {
+    blk: Blk,
+    hits: u64,
+    expired: u64,
+    reins_live: u64,
+}
+
+fn at(base: Instant, t: u128) -> Option<Instant> {
+    base.checked_add(dur(t)?)
+}
+
+fn panic_kind(msg: &str) -> &'static str {
+    if msg.contains("min <= max") || msg.contains("min > max") {
+        "clamp"
+    } else if msg.contains("overflow when adding duration to instant") {
+        "instant"
+    } else {
+        "other"
+    }
+}
+
+fn exec_direct(d: &mut Direct, t: &[&str], line: &str, rec: &mut Recorder, ctx_counts: &mut (u64, u64, u64)) -> Option<()> {
+    match t {
+        ["ins", q, tm, rest @ ..] => {
+            let q = parse_query(q)?;
+            let tm: u128 = tm.parse().ok()?;
+            let res = parse_res(rest)?;
+            let real = mk_result(&res, &q)?;
+            let now = at(d.base, tm)?;
+            let rq = mk_query(&q);
+            let out = catch(|| d.cache.insert(rq, real, now));
+            let cacheable = !matches!(res, ARes::Err(_));
+            match out {
+                Ok(()) => {
+                    let idx = rec.case(line.to_string(), "ok".into());
+                    rec.stat(match &res {
+                        ARes::Pos { .. } => "op.ins.pos",
+                        ARes::Neg { .. } => "op.ins.neg",
+                        ARes::Err(_) => "op.ins.err",
+                    });
+                    if cacheable {
+                        if let Some(old) = d.shadow.get(&q.key()) {
+                            if tm >= old.t && tm <= old.t + lifetime(&d.cfg, q.ty, &old.res) {
+                                ctx_counts.2 += 1;
+                                rec.stat("ins.replaces-live-entry");
+                                rec.nontrivial(idx);
+                            }
+                        }
+                        d.shadow.insert(q.key(), Shadow { res, t: tm, last: None });
+                    } else if d.shadow.contains_key(&q.key()) {
+                        rec.stat("ins.err-over-existing-entry");
+                    }
+                }
+                Err(p) => {
+                    let kind = panic_kind(&p);
+                    let idx = rec.case(line.to_string(), format!("panic {kind}"));
+                    rec.stat(&format!("op.ins.panic.{kind}"));
+                    let class = d.cfg.class();
+                    if class == "C15.bounds-min-gt-max" && kind == "clamp" {
+                        // min > max is outside the property's quantifier; `Ord::clamp` documents this panic
+                        rec.stat("expected-panic.min-gt-max");
+                    } else {
+                        rec.fail(idx, format!("insert panicked ({kind}): {p}; config [{}]", show_cfg(&d.cfg)), class);
+                    }
+                }
+            }
+        }
+        ["get", q, tm] => {
+            let q = parse_query(q)?;
+            let tm: u128 = tm.parse().ok()?;
+            let now = at(d.base, tm)?;
+            let rq = mk_query(&q);
+            let out = catch(|| d.cache.get(&rq, now));
+            let class = d.cfg.class();
+            match out {
+                Err(p) => {
+                    let idx = rec.case(line.to_string(), "panic get".into());
+                    rec.fail(idx, format!("get panicked: {p}"), "");
+                }
+                Ok(None) => {
+                    let idx = rec.case(line.to_string(), "none".into());
+                    rec.stat("op.get.none");
+                    if let Some(sh) = d.shadow.get(&q.key()) {
+                        if tm > sh.t + lifetime(&d.cfg, q.ty, &sh.res) {
+                            ctx_counts.1 += 1;
+                            rec.stat("get.miss-after-expiry");
+                            rec.nontrivial(idx);
+                        }
+                    }
+                }
+                Ok(Some(r)) => {
+                    let a = abs_result(&r);
+                    let shown = match &a {
+                        Ok(a) => show_res(a),
+                        Err(_) => "unrepresentable".into(),
+                    };
+                    let idx = rec.case(line.to_string(), shown);
+                    rec.stat("op.get.hit");
+                    ctx_counts.0 += 1;
+                    rec.nontrivial(idx);
+                    let a = match a {
+                        Ok(a) => a,
+                        Err(why) => {
+                            rec.fail(idx, format!("served answer is not the inserted one: {why}"), "");
+                            return Some(());
+                        }
+                    };
+                    let Some(sh) = d.shadow.get_mut(&q.key()) else {
+                        rec.fail(idx, "an answer was served although nothing cacheable was inserted for this query (transient error cached?)", "");
+                        return Some(());
+                    };
+                    if tm < sh.t {
+                        // clock went backwards w.r.t. the insert: outside the property's quantifier
+                        rec.stat("get.before-insert-instant");
+                        return Some(());
+                    }
+                    // (1) never stale
+                    let l = lifetime(&d.cfg, q.ty, &sh.res);
+                    if tm > sh.t + l {
+                        let what = if matches!(sh.res, ARes::Neg { .. }) { "negative answer kept longer than its clamped negative TTL" } else { "entry served after t_ins + L" };
+                        rec.fail(idx, format!("{what}: t_ins={} L={}ns now={}", sh.t, l, tm), class);
+                    }
+                    if tm == sh.t + l {
+                        rec.stat("get.hit-at-exact-expiry");
+                    }
+                    // (2) exact TTLs
+                    let elapsed = sat_u32((tm - sh.t) / NS_PER_S);
+                    let want = with_ttls(&stored(&d.cfg, &sh.res), |x| x.saturating_sub(elapsed));
+                    if a != want {
+                        rec.fail(idx, format!("reported TTLs differ from clamped stored TTL - elapsed({elapsed}s): got [{}] want [{}]", show_res(&a), show_res(&want)), class);
+                    }
+                    if elapsed > 0 {
+                        rec.stat("get.hit-with-elapsed>0");
+                    }
+                    // (3) monotone between refreshes
+                    let now_ttls = ttls(&a);
+                    if let Some((tp, prev)) = &sh.last {
+                        if tm >= *tp && (prev.len() != now_ttls.len() || prev.iter().zip(&now_ttls).any(|(p, n)| n > p)) {
+                            rec.fail(idx, format!("a TTL increased between refreshes: at {tp} {prev:?}, at {tm} {now_ttls:?}"), "");
+                        }
+                    }
+                    if sh.last.as_ref().map_or(true, |(tp, _)| tm >= *tp) {
+                        sh.last = Some((tm, now_ttls));
+                    }
+                }
+            }
+        }
+        _ => return None,
+    }
+    Some(())
+}
+
+fn exec_cc(c: &mut Cc, t: &[&str], line: &str, rec: &mut Recorder) -> Option<()> {
+    match t {
+        ["cclookup", q, rest @ ..] => {
+            let q = parse_query(q)?;
+            let res = parse_res(rest)?;
+            // the scripted upstream's answer, used only on a miss
+            let upstream = match &res {
+                ARes::Pos { an, .. } => {
+                    // the caching client only keeps answers owned by the query name
+                    let mut m = Message::response(0x1234, OpCode::Query);
+                    m.add_query(mk_query(&q));
+                    for r in an {
+                        m.answers.push(Record::from_rdata(mk_query(&q).name.clone(), r.ttl, mk_rdata(r.ty, r.pid)));
+                    }
+                    Ok(m)
+                }
+                ARes::Neg { rcode, soa, .. } => {
+                    // a real NXDOMAIN / NODATA response carrying the SOA; `DnsError::from_response` makes the `NoRecords`
+                    let mut m = Message::error_msg(0x1234, OpCode::Query, <ResponseCode as From<u16>>::from(*rcode));
+                    m.add_query(mk_query(&q));
+                    if let Some(s) = soa {
+                        m.authorities.push(Record::from_rdata(name("r", s.pid), s.ttl, RData::SOA(mk_soa(s.pid))));
+                    }
+                    Ok(m)
+                }
+                ARes::Err(k) => Err(mk_err(*k)),
+            };
+            *c.handle.next.lock().unwrap() = Some(upstream);
+            let before = c.handle.calls.load(AtomicOrdering::SeqCst);
+            let client = c.client.clone();
+            let rq = mk_query(&q);
+            let out = catch(|| c.rt.block_on(client.lookup(rq, DnsRequestOptions::default())));
+            let asked = c.handle.calls.load(AtomicOrdering::SeqCst) - before;
+            let o = match (&out, asked) {
+                (Err(_), _) => "panic".to_string(),
+                (Ok(_), 0) => "hit".to_string(),
+                (Ok(_), _) => "miss".to_string(),
+            };
+            let idx = rec.case(line.to_string(), o.clone());
+            rec.stat(&format!("op.cclookup.{o}"));
+            if out.is_err() {
+                rec.fail(idx, "CachingClient::lookup panicked", "");
+            }
+            // oracle: a hit needs a cacheable result inserted since the last clear
+            if o == "hit" {
+                rec.nontrivial(idx);
+                if !c.cached.contains_key(&q.key()) {
+                    rec.fail(idx, "served from the cache although nothing cacheable was inserted since the last clear", "");
+                }
+            } else if o == "miss" && (matches!(res, ARes::Pos { .. }) || matches!(res, ARes::Neg { rcode: 0 | 3, .. })) {
+                c.cached.insert(q.key(), ());
+            }
+        }
+        ["clear"] => {
+            c.client.clear_cache();
+            c.cached.clear();
+            rec.case(line.to_string(), "ok".into());
+            rec.stat("op.clear");
+        }
+        ["clearq", q] => {
+            let q = parse_query(q)?;
+            c.client.clear_cache_query(&mk_query(&q));
+            c.cached.remove(&q.key());
+            rec.case(line.to_string(), "ok".into());
+            rec.stat("op.clearq");
+        }
+        _ => return None,
+    }
+    Some(())
+}
+
+pub fn exec(line: &str, ctx: &mut Ctx, rec: &mut Recorder) {
+    let t: Vec<&str> = line.split_whitespace().collect();
+    match t.as_slice() {
+        ["begin", "cc"] => {
+            let handle = Scripted { next: Arc::new(Mutex::new(None)), calls: Arc::new(AtomicUsize::new(0)) };
+            let rt = tokio::runtime::Builder::new_current_thread().enable_time().build().unwrap();
+            let client = CachingClient::new(10_000, handle.clone(), false);
+            ctx.blk = Blk::Cc(Box::new(Cc { client, handle, rt, cached: HashMap::new() }));
+            rec.case(line.to_string(), "ok".into());
+            rec.stat("block.cc");
+            ctx.hits = 0;
+            ctx.expired = 0;
+            ctx.reins_live = 0;
+        }
+        ["begin", cfg @ ..] => {
+            let built = parse_cfg(cfg).and_then(|c| build_cfg(&c).map(|r| (c, r)));
+            match built {
+                Some((c, real)) => {
+                    rec.stat("block.direct");
+                    if c.min_gt_max() {
+                        rec.stat("cfg.min-gt-max");
+                    } else if c.over_u32() {
+                        rec.stat("cfg.bound-over-u32");
+                    }
+                    if !c.by.is_empty() {
+                        rec.stat("cfg.per-type-bounds");
+                    }
+                    if c.default != B::default() {
+                        rec.stat("cfg.global-bounds");
+                    }
+                    if c.all_bounds().any(|b| b.pmin.is_some() && b.pmin == b.pmax) {
+                        rec.stat("cfg.min=max");
+                    }
+                    if c.all_bounds().any(|b| [b.pmin, b.pmax, b.nmin, b.nmax].iter().any(|x| x.is_some_and(|v| v % NS_PER_S != 0))) {
+                        rec.stat("cfg.sub-second-bound");
+                    }
+                    // the base lies 30 years ahead of the real clock: moka's own expiry (valid_until
+                    // measured against the real clock) cannot fire, only hickory's `is_current` decides
+                    let base = Instant::now() + Duration::from_secs(30 * 365 * 86_400);
+                    ctx.blk = Blk::Direct(Box::new(Direct { cache: ResponseCache::new(100_000, real), base, cfg: c, shadow: HashMap::new() }));
+                    rec.case(line.to_string(), "ok".into());
+                }
+                None => {
+                    ctx.blk = Blk::Skipped;
+                    rec.stat("skipped.unbuildable-config");
+                    // keep the block bracketed for the driver: it sees a plain `begin`
+                    rec.case("begin".into(), "ok".into());
+                }
+            }
+            ctx.hits = 0;
+            ctx.expired = 0;
+            ctx.reins_live = 0;
+        }
+        ["end", ..] => {
+            let idx = rec.case(line.to_string(), "ok".into());
+            if ctx.hits > 0 && (ctx.expired > 0 || ctx.reins_live > 0) {
+                rec.nontrivial(idx);
+                rec.stat("block.with-hit-and-expiry-or-live-reinsert");
+            }
+            ctx.blk = Blk::None;
+        }
+        ["fromresp", rcode, tc, ans, mt, soa_ttl, minimum] if matches!(ctx.blk, Blk::None) => {
+            let (Ok(minimum), Ok(rcode)) = (minimum.parse::<u32>(), rcode.parse::<u16>()) else {
+                rec.stat("skipped.unparsable-or-out-of-block");
+                return;
+            };
+            let soa_ttl: Option<u32> = if *soa_ttl == "-" { None } else { soa_ttl.parse().ok() };
+            let q = AQuery { id: 0, upper: false, ty: T_A };
+            let qn = mk_query(&q).name.clone();
+            let mut m = Message::error_msg(0x1234, OpCode::Query, <ResponseCode as From<u16>>::from(rcode));
+            m.add_query(mk_query(&q));
+            m.metadata.truncation = *tc == "1";
+            if *ans == "1" {
+                // an answer that does not match the query: `contains_answer` only asks for a non-empty section
+                m.answers.push(mk_rec(&ARec { ty: T_TXT, ttl: 30, pid: 9 }));
+            }
+            m.authorities.push(mk_rec(&ARec { ty: T_NS, ttl: 5, pid: 1 }));
+            if let Some(t) = soa_ttl {
+                let mut soa = mk_soa(2);
+                soa.minimum = minimum;
+                m.authorities.push(Record::from_rdata(name("r", 2), t, RData::SOA(soa)));
+                // a second SOA must be ignored (`.next()` takes the first)
+                m.authorities.push(Record::from_rdata(name("r", 3), 1, RData::SOA(mk_soa(3))));
+            }
+            // near misses of "query type and owner name": other name / other type
+            m.additionals.push(mk_rec(&ARec { ty: T_A, ttl: 7, pid: 4 }));
+            m.additionals.push(Record::from_rdata(qn.clone(), 7, mk_rdata(T_AAAA, 5)));
+            if *mt == "1" {
+                m.additionals.push(Record::from_rdata(qn, 7, mk_rdata(T_A, 6)));
+            }
+            let out = catch(|| DnsResponse::from_message(m).ok().map(DnsError::from_response));
+            let shown = match &out {
+                Ok(Some(Err(DnsError::NoRecordsFound(n)))) => format!("neg {}", show_opt(&n.negative_ttl)),
+                Ok(Some(Err(DnsError::ResponseCode(c)))) => format!("err {}", u16::from(*c)),
+                Ok(Some(Ok(_))) => "ok".to_string(),
+                Ok(_) => "other".to_string(),
+                Err(_) => "panic".to_string(),
+            };
+            let idx = rec.case(line.to_string(), shown.clone());
+            rec.stat(&format!("op.fromresp.{}", shown.split(' ').next().unwrap_or("")));
+            if out.is_err() {
+                rec.fail(idx, "DnsError::from_response panicked", "");
+            }
+            // transient failures (SERVFAIL, REFUSED, …) must never turn into the cacheable NoRecordsFound
+            if matches!(rcode, 1 | 2 | 4 | 5 | 9) && !shown.starts_with("err") {
+                rec.fail(idx, format!("a response with error rcode {rcode} became `{shown}` instead of a non-cacheable error"), "");
+            }
+            // RFC 2308 §5: the negative TTL is the minimum of the SOA's TTL and its MINIMUM field
+            if let Some(got) = shown.strip_prefix("neg ") {
+                let want = show_opt(&soa_ttl.map(|t| t.min(minimum)));
+                if got != want {
+                    rec.fail(idx, format!("negative_ttl derived from the response is {got}, RFC 2308 says {want}"), "");
+                } else if soa_ttl.is_some() {
+                    rec.nontrivial(idx);
+                }
+            }
+        }
+        ["realtime", ms] if matches!(ctx.blk, Blk::None) => {
+            let Ok(ms) = ms.parse::<u64>() else {
+                rec.stat("skipped.unparsable-or-out-of-block");
+                return;
+            };
+            // real clock, real moka expiry: lifetime = `ms` for everything (positive min = max)
+            let life = Duration::from_millis(ms);
+            let mut opts = ResolverOpts::default();
+            opts.positive_min_ttl = Some(life);
+            opts.positive_max_ttl = Some(life);
+            let cache = ResponseCache::new(100_000, TtlConfig::from_opts(&opts));
+            let q = AQuery { id: 0, upper: false, ty: T_A };
+            let msg = mk_message(&[ARec { ty: T_A, ttl: 3600, pid: 1 }], &[], &[], &q);
+            let t0 = Instant::now();
+            cache.insert(mk_query(&q), Ok(msg), t0);
+            let early = cache.get(&mk_query(&q), t0).is_some();
+            std::thread::sleep(life + Duration::from_millis(30));
+            let late = cache.get(&mk_query(&q), Instant::now());
+            rec.impl_only += 1;
+            let idx = rec.case(line.to_string(), "~".into());
+            rec.stat("op.realtime");
+            rec.stat(if early { "realtime.served-at-insert-instant" } else { "realtime.not-served-at-insert-instant(stall)" });
+            if late.is_some() {
+                rec.fail(idx, format!("real clock: an entry with a lifetime of {ms} ms was served {} ms after its insert", t0.elapsed().as_millis()), "");
+            } else {
+                rec.nontrivial(idx);
+            }
+        }
+        _ => {
+            let mut counts = (0, 0, 0);
+            let r = match &mut ctx.blk {
+                Blk::Direct(d) => exec_direct(d, &t, line, rec, &mut counts),
+                Blk::Cc(c) => exec_cc(c, &t, line, rec),
+                Blk::Skipped | Blk::None => None,
+            };
+            ctx.hits += counts.0;
+            ctx.expired += counts.1;
+            ctx.reins_live += counts.2;
+            if r.is_none() {
+                rec.stat("skipped.unparsable-or-out-of-block");
+            }
+        }
+    }
+}
+
+// ------------------------------------------------------------------ generator
+
+const QTYPES: &[u16] = &[T_A, T_A, T_AAAA, T_CNAME, T_MX, T_TXT, T_SOA, T_ANY];
+const RTYPES: &[u16] = &[T_A, T_AAAA, T_CNAME, T_MX, T_TXT, T_SOA, T_NS, 99];
+const TTLS: &[u32] = &[0, 0, 1, 1, 2, 3, 5, 9, 10, 30, 59, 60, 61, 300, 3600, 86_399, 86_400, 86_401, 100_000, 604_800, 0x7fff_ffff, 0x8000_0000, u32::MAX - 1, u32::MAX];
+const SMALL_TTLS: &[u32] = &[0, 1, 2, 3, 5, 7, 10, 30, 60];
+const BOUND_S: &[u64] = &[0, 0, 1, 2, 3, 5, 10, 30, 60, 300, 3600, 86_400, 86_401, 172_800, 1_000_000, 0xffff_ffff];
+
+fn gen_ttl(r: &mut Rng) -> u32 {
+    match r.below(10) {
+        0..=4 => *r.pick(SMALL_TTLS),
+        5..=8 => *r.pick(TTLS),
+        _ => r.next() as u32,
+    }
+}
+
+fn gen_bound(r: &mut Rng, sub_second: bool) -> u128 {
+    let s = *r.pick(BOUND_S) as u128 * NS_PER_S;
+    if sub_second && r.chance(1, 2) { s + *r.pick(&[1u128, 500_000_000, 999_999_999]) } else { s }
+}
+
+/// ordered pair of optional bounds (min ≤ max after defaults), flavours: unset / min>ttl / max<ttl / min=max / 0
+fn gen_pair(r: &mut Rng, sub_second: bool) -> (Option<u128>, Option<u128>) {
+    let dflt_max = MAX_TTL as u128 * NS_PER_S;
+    match r.below(8) {
+        0 => (None, None),
+        1 => {
+            let m = gen_bound(r, sub_second).min(dflt_max);
+            (Some(m), None)
+        }
+        2 => (None, Some(gen_bound(r, sub_second))),
+        3 => {
+            let m = gen_bound(r, sub_second);
+            (Some(m), Some(m))
+        }
+        4 => (Some(0), Some(0)),
+        _ => {
+            let (a, b) = (gen_bound(r, sub_second), gen_bound(r, sub_second));
+            (Some(a.min(b)), Some(a.max(b)))
+        }
+    }
+}
+
+fn gen_b(r: &mut Rng, sub_second: bool) -> B {
+    let (pmin, pmax) = gen_pair(r, sub_second);
+    let (nmin, nmax) = if r.chance(1, 2) { gen_pair(r, sub_second) } else { (None, None) };
+    B { pmin, pmax, nmin, nmax }
+}
+
+fn gen_cfg(r: &mut Rng) -> Cfg {
+    let mut c = Cfg::default();
+    match r.below(100) {
+        0..=9 => {}
+        10..=39 => {
+            let sub = r.chance(1, 4);
+            c.default = gen_b(r, sub)
+        }
+        40..=89 => {
+            if r.chance(2, 3) {
+                let sub = r.chance(1, 5);
+                c.default = gen_b(r, sub);
+            }
+            for _ in 0..r.range(1, 3) {
+                let ty = *r.pick(&[T_A, T_A, T_AAAA, T_CNAME, T_CNAME, T_MX, T_TXT, T_SOA, T_NS]);
+                c.by.push((ty, gen_b(r, false)));
+            }
+        }
+        90..=95 => {
+            // a bound of 2^32 s or more (the TtlConfig docs say such durations are fine)
+            let big = *r.pick(&[1u128 << 32, (1u128 << 32) + 5, 1u128 << 33, 1u128 << 40]) * NS_PER_S;
+            let small = *r.pick(&[0u128, 60, 86_400, 86_401, 100_000, 0xffff_ffff]) * NS_PER_S;
+            let b = match r.below(3) {
+                0 => B { pmin: Some(small), pmax: Some(big), ..B::default() },
+                1 => B { pmin: Some(big), pmax: Some(big + r.below(2) as u128 * NS_PER_S), ..B::default() },
+                _ => B { nmin: Some(small.min(3600 * NS_PER_S)), nmax: Some(big), pmax: Some(big), ..B::default() },
+            };
+            if r.chance(1, 2) { c.default = b } else { c.by.push((*r.pick(&[T_A, T_CNAME, T_TXT]), b)) }
+        }
+        _ => {
+            // min > max: dedicated blocks whose expected outcome is the clamp panic
+            let b = match r.below(3) {
+                0 => B { pmin: Some(172_800 * NS_PER_S), ..B::default() },
+                1 => B { pmin: Some(100 * NS_PER_S), pmax: Some(10 * NS_PER_S), ..B::default() },
+                _ => B { nmin: Some(100 * NS_PER_S), nmax: Some(10 * NS_PER_S), ..B::default() },
+            };
+            if r.chance(1, 2) { c.default = b } else { c.by.push((*r.pick(&[T_A, T_CNAME, T_TXT]), b)) }
+        }
+    }
+    c
+}
+
+fn gen_rec(r: &mut Rng, qt: u16, pid: &mut u32) -> ARec {
+    let ty = match r.below(10) {
+        0..=4 => qt,
+        5..=6 => T_CNAME,
+        _ => *r.pick(RTYPES),
+    };
+    let ty = if ty == T_ANY { T_A } else { ty };
+    *pid += 1;
+    ARec { ty, ttl: gen_ttl(r), pid: *pid }
+}
+
+fn gen_recs(r: &mut Rng, qt: u16, max: u64, pid: &mut u32) -> Vec<ARec> {
+    (0..r.below(max + 1)).map(|_| gen_rec(r, qt, pid)).collect()
+}
+
+fn gen_res(r: &mut Rng, qt: u16, pid: &mut u32) -> ARes {
+    match r.below(10) {
+        0..=5 => ARes::Pos { an: gen_recs(r, qt, 4, pid), au: gen_recs(r, qt, 2, pid), ad: gen_recs(r, qt, 2, pid) },
+        6..=7 => {
+            *pid += 1;
+            let soa_ttl = gen_ttl(r);
+            let soa = if r.chance(3, 4) { Some(ARec { ty: T_SOA, ttl: soa_ttl, pid: *pid }) } else { None };
+            // as `DnsResponse::negative_ttl` derives it (min of SOA TTL and SOA minimum = 60), or arbitrary, or absent
+            let nttl = match r.below(4) {
+                0 => None,
+                1 => Some(gen_ttl(r)),
+                _ => soa.as_ref().map(|s| s.ttl.min(60)),
+            };
+            let auth = match r.below(3) {
+                0 => None,
+                _ => Some((0..r.below(3)).map(|_| { *pid += 1; ARec { ty: *r.pick(&[T_SOA, T_NS, 99]), ttl: gen_ttl(r), pid: *pid } }).collect()),
+            };
+            let ns = match r.below(3) {
+                0 | 1 => None,
+                _ => Some(
+                    (0..r.below(3))
+                        .map(|_| {
+                            *pid += 1;
+                            let ns = ARec { ty: T_NS, ttl: gen_ttl(r), pid: *pid };
+                            let glue = (0..r.below(3)).map(|_| { *pid += 1; ARec { ty: *r.pick(&[T_A, T_AAAA]), ttl: gen_ttl(r), pid: *pid } }).collect();
+                            ANs { ns, glue }
+                        })
+                        .collect(),
+                ),
+            };
+            ARes::Neg { rcode: if r.chance(1, 2) { 3 } else { 0 }, nttl, soa, auth, ns }
+        }
+        _ => ARes::Err(r.below(10) as u32),
+    }
+}
+
+fn digest(lines: &[String]) -> String {
+    use std::hash::{Hash, Hasher};
+    let mut h = std::collections::hash_map::DefaultHasher::new();
+    lines.hash(&mut h);
+    format!("{:016x}", h.finish())
+}
+
+/// one direct block: a few query keys, inserts / lookups at non-decreasing instants, lookups aimed
+/// at the interesting instants (the insert instant, whole-second edges, `t_ins + L` and 1 ns later)
+fn gen_direct_block(r: &mut Rng) -> Vec<String> {
+    let cfg = gen_cfg(r);
+    let mut lines = vec![format!("begin {}", show_cfg(&cfg)).trim_end().to_string()];
+    let nkeys = r.range(1, 4) as usize;
+    let keys: Vec<AQuery> = (0..nkeys).map(|_| AQuery { id: r.below(3) as u32, upper: false, ty: *r.pick(QTYPES) }).collect();
+    let mut t: u128 = if r.chance(1, 3) { 0 } else { r.below(5_000_000_000) as u128 };
+    let mut pid = 0u32;
+    let mut live: HashMap<(u32, u16), (u128, u128)> = HashMap::new(); // key -> (t_ins, L) by the oracle's arithmetic
+    let far = r.chance(1, 25);
+    let backwards = r.chance(1, 20);
+    for _ in 0..r.range(4, 30) {
+        let mut q = *r.pick(&keys);
+        q.upper = r.chance(1, 5);
+        // advance the clock
+        let target = live.get(&q.key()).copied();
+        t = match (r.below(18), target) {
+            (0..=5, _) => t,
+            (6, _) => t + r.below(1_000_000_000) as u128,
+            (7, _) => t + NS_PER_S - 1,
+            (8, _) => t + NS_PER_S,
+            (9, _) => t + r.range(1, 90) as u128 * NS_PER_S + r.below(2) as u128 * r.below(NS_PER_S as u64) as u128,
+            (10..=12, Some((ti, l))) if ti + l >= t => ti + l,
+            (13, Some((ti, l))) if ti + l + 1 >= t => ti + l + 1,
+            (14 | 15, Some((ti, _))) => {
+                // a whole-second edge after the insert
+                let k = (t.saturating_sub(ti)) / NS_PER_S + r.range(0, 3) as u128;
+                (ti + k * NS_PER_S).saturating_sub(r.below(2) as u128).max(t)
+            }
+            _ if far => t + *r.pick(&[86_400u128, 86_401, 1 << 31, (1 << 32) - 1, 1 << 32, (1 << 32) + 1]) * NS_PER_S,
+            (16, _) => t + r.range(1, 10) as u128 * NS_PER_S,
+            _ => t + r.range(0, 2) as u128 * NS_PER_S,
+        };
+        let t_line = if backwards && r.chance(1, 6) { t.saturating_sub(r.range(1, 3) as u128 * NS_PER_S) } else { t };
+        if r.chance(2, 5) {
+            let res = gen_res(r, q.ty, &mut pid);
+            if !matches!(res, ARes::Err(_)) {
+                live.insert(q.key(), (t_line, lifetime(&cfg, q.ty, &res)));
+            }
+            lines.push(format!("ins {} {} {}", show_query(&q), t_line, show_res(&res)));
+        } else {
+            lines.push(format!("get {} {}", show_query(&q), t_line));
+        }
+    }
+    lines.push(format!("end {}", digest(&lines)));
+    lines
+}
+
+fn gen_cc_block(r: &mut Rng) -> Vec<String> {
+    let mut lines = vec!["begin cc".to_string()];
+    let keys: Vec<AQuery> = (0..r.range(1, 3)).map(|_| AQuery { id: r.below(3) as u32, upper: false, ty: *r.pick(&[T_A, T_AAAA, T_TXT, T_MX]) }).collect();
+    let mut pid = 0u32;
+    for _ in 0..r.range(3, 14) {
+        let mut q = *r.pick(&keys);
+        q.upper = r.chance(1, 5);
+        match r.below(10) {
+            0 | 1 => lines.push("clear".into()),
+            2 => lines.push(format!("clearq {}", show_query(&q))),
+            _ => {
+                pid += 1;
+                // answers the caching client caches as they are: records of the query type owned by the
+                // query name are not required by the cache itself, hours-long TTLs keep real time out
+                let res = match r.below(8) {
+                    0 => ARes::Err(r.below(9) as u32),
+                    1 | 2 => ARes::Neg { rcode: if r.chance(1, 2) { 3 } else { 0 }, nttl: Some(60), soa: Some(ARec { ty: T_SOA, ttl: 3600, pid }), auth: None, ns: None },
+                    // SERVFAIL / REFUSED *responses* (not transport errors): must never be served from the cache
+                    3 => ARes::Neg { rcode: *r.pick(&[2u16, 5, 2, 1, 4, 9]), nttl: None, soa: if r.chance(1, 2) { Some(ARec { ty: T_SOA, ttl: 3600, pid }) } else { None }, auth: None, ns: None },
+                    // NXDOMAIN without SOA: cacheable, but with the default negative minimum of 0 it is already expired at the next lookup
+                    4 => ARes::Neg { rcode: 3, nttl: None, soa: None, auth: None, ns: None },
+                    _ => ARes::Pos { an: vec![ARec { ty: q.ty, ttl: *r.pick(&[3600u32, 7200, 86_400]), pid }], au: vec![], ad: vec![] },
+                };
+                lines.push(format!("cclookup {} {}", show_query(&q), show_res(&res)));
+            }
+        }
+    }
+    lines.push(format!("end {}", digest(&lines)));
+    lines
+}
+
+/// exhaustive small scope: every sequence of `len` steps over one key from an alphabet of
+/// (clock advance) × (lookup / insert of a few results), under a few configurations
+fn enumerate_small(len: usize) -> Vec<Vec<String>> {
+    let cfgs = [
+        "",
+        "d:2000000000,4000000000,1000000000,2000000000",
+        "1:1000000000,1000000000,-,- 5:3000000000,3000000000,-,-",
+        "d:-,1500000000,-,0",
+    ];
+    let dts: [u128; 4] = [0, 999_999_999, 1_000_000_000, 2_000_000_000];
+    let acts = [
+        "get",
+        "pos 1:0:1 - -",
+        "pos 1:1:1 - 16:9:2",
+        "pos 1:3:1 - -",
+        "pos 5:1:1,1:5:2 - -",
+        "neg 3 1 6:1:1 - -",
+        "err 0",
+    ];
+    let syms = dts.len() * acts.len();
+    let mut out = vec![];
+    for cfg in cfgs {
+        let total = syms.pow(len as u32);
+        for code in 0..total {
+            let mut lines = vec![format!("begin {cfg}").trim_end().to_string()];
+            let (mut c, mut t) = (code, 0u128);
+            for _ in 0..len {
+                let sym = c % syms;
+                c /= syms;
+                t += dts[sym % dts.len()];
+                let a = acts[sym / dts.len()];
+                lines.push(if a == "get" { format!("get 0/1 {t}") } else { format!("ins 0/1 {t} {a}") });
+            }
+            lines.push(format!("get 0/1 {t}"));
+            lines.push(format!("get 0/1 {}", t + 1_000_000_000));
+            lines.push(format!("end {}", digest(&lines)));
+            out.push(lines);
+        }
+    }
+    out
+}
+
+pub fn run(o: &Opts, rec: &mut Recorder) {
+    rec.rule = "histories (begin…end blocks) of insert/get at explicit instants over 1-4 query keys × TTL-bound configurations (none / global / per-type / min>ttl / max<ttl / min=max / 0 / sub-second / ≥2^32 s / dedicated min>max), lookups aimed at the insert instant, whole-second edges, t_ins+L and t_ins+L+1ns; a case is non-trivial when it is a lookup that was served, a lookup that missed because the entry had expired, an insert replacing a live entry, or the `end` line (carrying the digest of its history) of a block with at least one served lookup and one expiry or live re-insert; distinct by case line".into();
+    let mut ctx = Ctx { blk: Blk::None, hits: 0, expired: 0, reins_live: 0 };
+    for l in o.pre_lines.clone() {
+        exec(&l, &mut ctx, rec);
+    }
+    rec.corpus_cases = rec.cases.len();
+    if o.replay_only {
+        return;
+    }
+    for lines in enumerate_small(if o.thorough() { 3 } else { 2 }) {
+        rec.stat("block.enumerated");
+        for l in lines {
+            exec(&l, &mut ctx, rec);
+        }
+    }
+    for ms in if o.thorough() { vec![1u64, 50, 300, 1000] } else { vec![1, 120] } {
+        exec(&format!("realtime {ms}"), &mut ctx, rec);
+    }
+    let mut r = Rng::new(o.seed);
+    for _ in 0..o.n(600, 20_000) {
+        let soa_ttl = if r.chance(1, 6) { "-".to_string() } else { gen_ttl(&mut r).to_string() };
+        let rcode = match r.below(10) {
+            0..=2 => 3,
+            3..=5 => 0,
+            6 => 2,
+            7 => 5,
+            8 => *r.pick(&[1u64, 4, 6, 7, 8, 9, 10, 16, 17, 18, 19, 20, 21, 22, 23]),
+            _ => *r.pick(&[11u64, 12, 15, 24, 100, 3841, 4095]),
+        };
+        let l = format!("fromresp {} {} {} {} {} {}", rcode, b(r.chance(1, 6)), b(r.chance(1, 5)), b(r.chance(1, 5)), soa_ttl, gen_ttl(&mut r));
+        exec(&l, &mut ctx, rec);
+    }
+    let blocks = o.n(12_000, 300_000);
+    for i in 0..blocks {
+        let lines = if i % 12 == 11 { gen_cc_block(&mut r) } else { gen_direct_block(&mut r) };
+        for l in lines {
+            exec(&l, &mut ctx, rec);
+        }
+    }
 }
